@@ -168,7 +168,8 @@ func lcRecoverCase(r *Run, srv, ver int, knows, inLatest bool) {
 	}
 	found := knows || (inLatest && srv != int(auctioneerrpc.AuctionAccountState_STATE_PENDING_OPEN))
 	switch {
-	case reportedState == account.StateInitiated && !found:
+	case (srv == int(auctioneerrpc.AuctionAccountState_STATE_PENDING_OPEN) ||
+		srv == int(auctioneerrpc.AuctionAccountState_STATE_OPEN)) && !found:
 		r.Count("case/unknown-funding")
 		if rec.State != account.StateCanceledAfterRecovery {
 			bad(fmt.Sprintf("funding tx unknown to the wallet but the account is %v, not canceled", rec.State), "C20/not-canceled")
